@@ -151,4 +151,23 @@ theorem impl_eq_spec (S : SrpPrims) (hS : LawfulSrp S) (isPrime : Int → Bool)
     Nat.mod_lt _ hpos
   rw [sa_eq _ _ _ _ _ hkv (Nat.add_comm _ _)]
 
+/-- `SRP.NewHash` returns the padded verifier `v = g^PH2(password, salt1 ‖ rnd, salt2) mod p` and the
+extended salt. -/
+theorem newHash_eq_spec (S : SrpPrims) (hS : LawfulSrp S) (isPrime : Int → Bool) (pw tape : Bytes) (i : Input)
+    (ht : 32 ≤ tape.length) (hgrp : C13.checkDH isPrime i.g ((beNat i.p : Nat) : Int) = .ok) :
+    Impl.newHash S isPrime pw tape i =
+      .ok (Spec.pad (Spec.v S (beNat i.p) i.g.toNat pw (i.salt1 ++ tape.take 32) i.salt2),
+        i.salt1 ++ tape.take 32) := by
+  obtain ⟨hlo, hhi⟩ := group_bounds isPrime i.g (beNat i.p) hgrp
+  have hpos : 0 < beNat i.p := Nat.lt_of_lt_of_le (Nat.two_pow_pos 2047) hlo
+  unfold Impl.newHash
+  have h32 : ¬ tape.length < 32 := by omega
+  dsimp only
+  have hlt : ∀ n, n % beNat i.p < 256 ^ 256 := fun n => Nat.lt_trans (Nat.mod_lt n hpos) hhi
+  rw [if_neg (by rw [hgrp]; exact fun h => h rfl)]
+  rw [if_neg h32]
+  rw [hS.powMod_eq, secondary_eq_PH2]
+  rw [pad256FromBig_of_lt _ (hlt _)]
+  simp only [Option.getD_some, Spec.pad, Spec.v, Spec.x]
+
 end TdModel.C15
